@@ -47,9 +47,19 @@ THEOREMS = [
     "c02b_next_eof_comment",
     "c02b_version_marker",
     "c02b_traverse_stream_ex",
+    "c02c_traverse_stream_partial",
+    "c02c_includes_c02b",
+    "c02c_table_step",
+    "c02c_install_spec",
+    "c02c_read_symbols",
+    "c02c_read_fields",
+    "c02c_next_inner",
+    "c02c_version_marker_eof_comment",
+    "c02c_traverse_stream_ex",
+    "c02c_contexts_ex",
     "c02_traverse_tree",
 ]
-EXTRA_MODULES = ["C02b"]
+EXTRA_MODULES = ["C02b", "C02c"]
 LEVEL = "other"
 EXPLANATION = ("Value forests (lib/iongen.py, plus symbols without text) are rendered by an independent, spec-derived "
                "printer (lib/textgen.py) that picks a random legal spelling at every token: whitespace and both comment "
